@@ -97,6 +97,20 @@ def check_case(ctx, cs, precision=None, binsearch=False, mode=None):
                         if bad:
                             ctx.violate(site, tg2 + ["piece%d" % (i + 1)], small, {"field": bad, "got_kv": [list(U) for U in pcs[i]._knot_vector],
                                                                                  "expected_kv": [fl(frv(U)) for U in o["pieces"][i]["kv"]]})
+            # a coordinate edited in place through the list the getter returns (non-rational surfaces), then a split that needs no
+            # insertion (the knot has full multiplicity): the pieces carry the edited coordinate
+            if mode is None and precision is None and not binsearch and pd == 2 and not sh["rat"] and mult == sh["deg"][d - 1]:
+                def edited_split():
+                    ob = build(sh)
+                    ob.ctrlpts[0][0] += 1.0
+                    return fn(ob, u)
+                ok, pcs2 = _try(ctx, site, tg2 + ["coordinate_edited_in_place"], small, edited_split)
+                if ok and len(pcs2) == 2:
+                    e1 = copy.deepcopy(o["pieces"][0])
+                    e1["P"][0][0] = [e1["P"][0][0][0] + e1["P"][0][0][1], e1["P"][0][0][1]]
+                    bad = same_def(project(pcs2[0]), e1) or same_def(project(pcs2[1]), o["pieces"][1])
+                    if bad:
+                        ctx.violate(site, tg2 + ["coordinate_edited_in_place"], small, {"field": bad})
     elif op == "decompose":
         dr = o["dir"]
         site = "operations.decompose_curve" if pd == 1 else "operations.decompose_surface"
